@@ -159,10 +159,25 @@ def dnf(f):
     raise ValueError("bad formula %r" % (f,))
 
 
-def sat(f, domain=()):
+def tighten(cons, int_atoms):
+    """over integer-valued atoms a strict inequality with integral coefficients  e < 0  is  e + 1 <= 0"""
+    out = []
+    for c in cons:
+        if c.op == "<" and c.co and all(k in int_atoms for k in c.co) \
+                and all(v.denominator == 1 for v in c.co.values()) and c.c.denominator == 1:
+            out.append(Lin(c.co, c.c + 1, "<="))
+        else:
+            out.append(c)
+    return out
+
+
+def sat(f, domain=(), int_atoms=None):
     """is formula satisfiable together with the domain constraints? returns a witness conjunction or None"""
     for conj in dnf(f):
-        if feasible(list(conj) + list(domain)):
+        cons = list(conj) + list(domain)
+        if int_atoms:
+            cons = tighten(cons, int_atoms)
+        if feasible(cons):
             return conj
     return None
 
